@@ -78,6 +78,67 @@ def nan_discipline_inplace(f, g, fld):
     return (not problems), ("; ".join(problems) if problems else "two-sided guard")
 
 
+def must_merge_on_all_paths(repo, rep, r1, c, m, f, dv):
+    """Forward must-analysis over the CFG of __iadd__: the set of content fields already merged.  A loop that merges (or
+    inserts) children of a slot counts as merging that slot (zero iterations = nothing to merge)."""
+    from ..cfg import solve_forward
+
+    sn, on = f.params
+    dict_fields = [s for s, k in m.slot_kind.items() if k == "dict"] + (["values"] if m.name == "Bag" else [])
+    ft = FieldTaint(repo, c, f, [sn, on], dict_fields)
+    content = list(m.acc) + list(m.slots)
+    g = cfgmod.build(f.node)
+
+    def gens_of_stmt(n):
+        out = set()
+        tg, val, aug = [], None, False
+        if isinstance(n, ast.AugAssign):
+            tg, val, aug = [n.target], n.value, True
+        elif isinstance(n, ast.Assign):
+            tg, val = n.targets, n.value
+        for t in tg:
+            tl = ft.L(t, ft.env) if not isinstance(t, ast.Name) else ft.env.get(t.id, frozenset())
+            vl = ft.L(val, ft.env)
+            base = t
+            while isinstance(base, ast.Subscript):
+                base = base.value
+            direct = base.attr if isinstance(base, ast.Attribute) and isinstance(base.value, ast.Name) and base.value.id == sn else None
+            for fld in content:
+                from_other = any(p == on and fl == fld for (p, fl, fv, z) in vl)
+                from_both = dv is not None and isinstance(val, ast.Attribute) and isinstance(val.value, ast.Name) and val.value.id == dv and val.attr == fld
+                into_self = direct == fld or any(p == sn and fl == fld for (p, fl, fv, z) in tl)
+                if into_self and (from_other or from_both):
+                    out.add(fld)
+        return out
+
+    loop_gens = {}
+    for n in walk_local_stmt(f.node):
+        if isinstance(n, (ast.For, ast.While)):
+            acc = set()
+            for b in ast.walk(n):
+                if isinstance(b, (ast.Assign, ast.AugAssign)):
+                    acc |= gens_of_stmt(b)
+            loop_gens[id(n)] = acc
+
+    def transfer(node, st):
+        st = set(st)
+        if node.kind == "stmt" and isinstance(node.ast, (ast.Assign, ast.AugAssign)):
+            st |= gens_of_stmt(node.ast)
+        if node.kind == "iter" and node.stmt is not None and id(node.stmt) in loop_gens:
+            st |= loop_gens[id(node.stmt)]
+        return frozenset(st)
+
+    states = solve_forward(g, frozenset(), transfer, lambda a, b: a & b)
+    for n in g.nodes:
+        if n.kind == "stmt" and isinstance(n.ast, ast.Return) and n.id in states:
+            have = states[n.id]
+            missing = [x for x in content if x not in have]
+            r1.ob(not missing, f"{c.name}.__iadd__: return at line {n.ast.lineno}: merged {sorted(have)}")
+            if missing:
+                rep.finding("R7.1", f, n.ast, f"the path returning at line {n.ast.lineno} has not merged {missing} of `{on}` into `{sn}`: on that path "
+                            f"`a += b` silently drops part of b (entries, flows or bins), while `a + b` keeps it", stmt=f"return before merging {missing}")
+
+
 def run(repo, rep, tier):
     rep.extra["explanation"] = (
         "Sibling agreement between __iadd__ and __add__ of each of the 19 primitives: either the delegation idiom "
@@ -196,6 +257,31 @@ def run(repo, rep, tier):
                     if not ins:
                         rep.finding("R7.1", f, f.node, f"bins of `{on}.{s}` whose key is absent from `{sn}.{s}` are never inserted: "
                                     f"`+=` drops the right operand's new bins", stmt=f"right-only keys of {s} dropped")
+        # R7.1 (formula form): for the scalar leaves merged in place, the new state equals the state of self + other as rational functions
+        if dv is None and c.name in ("Count", "Sum", "Average", "Deviate"):
+            from ..formulas import LeafScenario, add_state, run_body
+            from ..poly import Rat, Unsupported
+            try:
+                env = {}
+                for fld in m.acc:
+                    env[f"{sn}.{fld}"] = Rat.sym(f"{sn}.{fld}")
+                    env[f"{on}.{fld}"] = Rat.sym(f"{on}.{fld}")
+                env2, _ = run_body(f, dict(env), LeafScenario(False, False, sn, on))
+                want = add_state(add, m.acc, LeafScenario(False, False, add.params[0], add.params[1]))
+                ren = {f"{add.params[0]}.{x}": f"{sn}.{x}" for x in m.acc}
+                ren.update({f"{add.params[1]}.{x}": f"{on}.{x}" for x in m.acc})
+                for fld in m.acc:
+                    got = env2[f"{sn}.{fld}"]
+                    w = want[fld].rename(ren)
+                    okf = got.equals(w)
+                    r1.ob(okf, f"{c.name}.__iadd__: {fld} after += is {got!r}")
+                    if not okf:
+                        rep.finding("R7.1", f, f.node, f"after `a += b` the field `{fld}` is {got!r}, but `a + b` gives {w!r}: the in-place merge does "
+                                    f"not compute what the pure merge computes", stmt=f"{fld}: += formula differs from +")
+            except Unsupported as e:
+                raise AnalysisError(f"{f.construct}: formula extraction failed: {e}")
+        # R7.1 (path form): on EVERY path that returns, every content field has been merged before the return
+        must_merge_on_all_paths(repo, rep, r1, c, m, f, dv)
         # R7.2
         g = cfgmod.build(f.node)
         ok = True
